@@ -203,6 +203,19 @@ def evaluate(case, obs):
                 stopping = any(x["kind"] == "stop_call" and x["t"] <= end[0]["t"] for x in evs)
                 if sorted(end[0]["after"]) != sent and not later_sub and not stopping:
                     out.fail("adopts_sent", "assignment_after_callback_differs", {"member": tag, "sent": sent, "assignment()": end[0]["after"]})
+    # ---- callbacks alternate: between two assigned callbacks of a member its revoked callback ran to the end
+    for tag, evs in tl.items():
+        seen_assigned = False
+        revoked_since = True
+        for e in evs:
+            if e["kind"] == "revoked_end":
+                revoked_since = True
+            elif e["kind"] == "assigned_begin":
+                if seen_assigned and not revoked_since:
+                    out.fail("barrier", "assigned_again_without_revoke_callback", {"member": tag, "epoch": e["epoch"], "t": e["t"]})
+                    break
+                seen_assigned = True
+                revoked_since = False
     # ---- barrier: all participants' revoked-end before any participant's assigned-begin of that generation
     join_by_member = {}
     for a in c.arrivals:
@@ -283,7 +296,34 @@ def execute(case):
     return evaluate(case, GS.run(case))
 
 
+def commit_refused_cases(shard, nshards):
+    """A second member joins while the first one has consumed records and auto-commits; every OffsetCommit of a
+    window around the rebalance (including the commit made just before the rejoin) is refused for good
+    (OFFSET_METADATA_TOO_LARGE).  The error goes to the application; the revoke callback still has to run before the
+    member takes part in the new generation."""
+    i = 0
+    for k0 in (0, 2, 5, 9):
+        for aci in (50, 200):
+            for join_at in (0.4, 0.7):
+                for code in (12, 28):
+                    i += 1
+                    if i % nshards != shard:
+                        continue
+                    cfg = {"assignors": ["range"], "session_timeout_ms": 1000, "heartbeat_interval_ms": 100,
+                           "rebalance_timeout_ms": 1500, "retry_backoff_ms": 10, "request_timeout_ms": 2000,
+                           "auto_commit": True, "auto_commit_interval_ms": aci, "metadata_max_age_ms": 1000,
+                           "max_poll_interval_ms": 300000}
+                    m0 = {"topics": ["t0"], "start_at": 0.0, "callback_delay": 0.01, "ops": [["poll", "getmany", 0.1, 2]] * 3}
+                    m1 = {"topics": ["t0"], "start_at": join_at, "callback_delay": 0, "ops": []}
+                    yield {"cfg": cfg, "cluster": {"nodes": 1, "topics": {"t0": 2}, "join_max": 5, "group_coord": 0, "initial": [3, 2]},
+                           "members": [m0, m1], "kills": [],
+                           "faults": [{"sel": "offset_commit", "k": k0 + j, "act": "error", "code": code, "delay": 0.05} for j in range(30)],
+                           "env": [], "run_for": 3.0, "lat": [0.001], "chunks": [0], "rng_seed": 3}
+
+
 def campaigns(tier):
     th = tier == "thorough"
-    return [Campaign("group_sim", "hyp", execute=execute, strategy=lambda: c06.strategy("ownership"),
+    return [Campaign("commit_refused_at_rebalance", "enum", execute=execute, cases=commit_refused_cases, exhaustive=True,
+                     setup=GS.setup),
+            Campaign("group_sim", "hyp", execute=execute, strategy=lambda: c06.strategy("ownership"),
                      examples=12000 if th else 1280, setup=GS.setup, max_wall=1000 if th else 110, shrink_wall=40)]
